@@ -222,7 +222,17 @@ def equal_value_signal(case, msg, observed=None):
     return bool(case.get("constant_status")) and "was not followed by a run of the waiter" in (msg or "")
 
 
-MATCHERS = {f.__name__: f for f in (equal_value_signal, mermaid_id_clash, viz_shared_producer_in_container, nested_interrupt_resume, equal_but_distinct_default, stop_iteration_async, waiter_with_edge_default, ambiguous_cycle_entry, empty_map_silent, viz_renamed_boundary, interrupt_handler_wrapped, interrupt_with_edge_default, bound_output_name)}
+def self_first_body_overrun(case, msg, observed=None):
+    """A loop whose gate is synchronised (wait_for) on the last body node's signal and whose target - the first body node -
+    consumes its own output, with at least one pass-through stage between it and the emitting node: until the gate has decided for the first time
+    its target is default-open and stale by its own output, so it re-fires every superstep (stages + 1 executions); visible
+    when the bound is below that number."""
+    if not isinstance(case, dict) or case.get("family") != "self_first_body":
+        return False
+    return case.get("stages", 0) >= 1 and case.get("limit", 99) <= case.get("stages", 0) and "extra executions before the gate's first decision" in (msg or "")
+
+
+MATCHERS = {f.__name__: f for f in (self_first_body_overrun, equal_value_signal, mermaid_id_clash, viz_shared_producer_in_container, nested_interrupt_resume, equal_but_distinct_default, stop_iteration_async, waiter_with_edge_default, ambiguous_cycle_entry, empty_map_silent, viz_renamed_boundary, interrupt_handler_wrapped, interrupt_with_edge_default, bound_output_name)}
 
 
 def classify(ctx, case, msg, observed=None):
